@@ -94,13 +94,16 @@ def run(rep, rng, tier, replay=None):
             rep.violation("property", "JSON: deserialise + serialise does not reproduce the bytes", case=small, failing_input=True)
         if not o["cbor_roundtrip_identical"]:
             rep.violation("property", "CBOR: deserialise + serialise does not reproduce the bytes", case=small, failing_input=True)
+        if not o.get("compact_roundtrip_identical", True):
+            rep.violation("property", "value tree with positional structs: deserialise + serialise does not reproduce the document", case=small, failing_input=True)
         d = o["restored_dimension"]
-        if not (d[0] == d[1] == d[2]) or not (o["restored_dod"][0] == o["restored_dod"][1] == o["restored_dod"][2]):
+        if len(set(d)) != 1 or len(set(o["restored_dod"])) != 1:
             rep.violation("property", "restored sampler has another dimension / dod: %s %s" % (d, o["restored_dod"]), case=small, failing_input=True)
-        for i, (a, rj, rc) in enumerate(zip(o["results"], o["restored_json"], o["restored_cbor"])):
+        for i, (a, rj, rc, rp) in enumerate(zip(o["results"], o["restored_json"], o["restored_cbor"], o.get("restored_compact", o["restored_cbor"]))):
             rep.count([c["edges"], c["ops"][i]["point"]], True)
-            if c17.strip(a) != c17.strip(rj) or c17.strip(a) != c17.strip(rc):
-                rep.violation("property", "sample %d differs after a serde round trip (JSON equal: %s, CBOR equal: %s)" % (i, c17.strip(a) == c17.strip(rj), c17.strip(a) == c17.strip(rc)),
+            if c17.strip(a) != c17.strip(rj) or c17.strip(a) != c17.strip(rc) or c17.strip(a) != c17.strip(rp):
+                rep.violation("property", "sample %d differs after a serde round trip (JSON equal: %s, CBOR equal: %s, positional value tree equal: %s)" % (
+                    i, c17.strip(a) == c17.strip(rj), c17.strip(a) == c17.strip(rc), c17.strip(a) == c17.strip(rp)),
                               case=dict(c, ops=[c["ops"][i]]), failing_input=True, what="restored sampler samples differently")
         rep.sample(dict(graph=c["family"], E=len(c["edges"]), json_keys=list(o["json"]["table"].keys())))
     # large samplers (11 and 12 edges, two loops, all-massive "theta" graphs): round trip only (no table model: 2^12 subsets),
@@ -144,6 +147,6 @@ def run(rep, rng, tier, replay=None):
                     case=dict(c, ops=[c["ops"][i]]), failing_input=True, what="restored sampler samples differently")
     rep.cov["large_samplers"] = [dict(E=len(c["edges"]), family=c["family"]) for c in big]
     rep.cov["rule"] = ("accepted connected graphs from all families, D=1..6; the implementation's JSON must equal the model's sampler field for field (names, order, values: catches "
-                       "serde(skip), renamed or recomputed fields); round trip through serde_json and ciborium: re-serialisation byte-identical, equal dimension/dod, and 6 points per "
+                       "serde(skip), renamed or recomputed fields); round trip through serde_json, ciborium and an in-memory value tree that writes structs as positional sequences (as MessagePack's compact mode): re-serialisation byte-identical, equal dimension/dod, and 6 points per "
                        "sampler (random, all 2^-30, all 1-2^-53) sampled bit-identically by original, JSON-restored and CBOR-restored samplers; two large samplers (theta graphs with 11 and 12 edges) through the same round trips. non-trivial = E>=3 (shape) / every sample")
-    rep.assumptions.append("serde_json and ciborium preserve the serde data model and f64 exactly")
+    rep.assumptions.append("serde_json, ciborium and the harness value-tree format preserve the serde data model and f64 exactly")
